@@ -25,7 +25,7 @@ func init() {
 			"non-trivial = the static view succeeded and had >= 2 steps / parts, or the type has depth >= 2; distinct by source text",
 		Assumptions: []string{"cty value equality", "types are drawn from the type-constraint language: primitives, any, list/set/map, tuple, object with identifier attribute names (keywords included), no optional attributes"},
 		Quick:       Plan{Batches: 16, PerBatch: 2500, MinNonTrivial: 10000},
-		Thorough:    Plan{Batches: 64, PerBatch: 40000, MinNonTrivial: 400000},
+		Thorough:    Plan{Batches: 64, PerBatch: 80000, MinNonTrivial: 400000},
 		Case:        c20Case,
 	})
 }
